@@ -29,7 +29,8 @@ FD = _d.FieldDescriptor
 PROFILE = grammar.profile(
     p_http=0.93, p_get=0.9, p_list=0.7, p_create=0.8, p_update=0.8, p_delete=0.7, p_custom=0.9, p_multi_var_path=0.6,
     p_sstream=0.4, p_cstream=0.0, p_bidi=0.0, p_lro=0.0, p_service_config=0.7, p_yaml=0.05, p_routing=0.1,
-    transports=["rest", "grpc+rest"], p_numeric_enums=0.5, p_additional_binding=0.5, p_reserved_field=0.1, p_reserved_path_var=0.3, p_required_enum=0.3, p_double_star_path=0.25, p_mixed_foreign_io=0.35, p_required_optional=0.3, p_body_only_in_additional=0.5, p_case_twin_fields=0.2, p_deep_path_var=0.2)
+    transports=["rest", "grpc+rest"], p_numeric_enums=0.5, p_additional_binding=0.5, p_reserved_field=0.1, p_reserved_path_var=0.3, p_required_enum=0.3, p_double_star_path=0.25, p_mixed_foreign_io=0.35, p_required_optional=0.3, p_body_only_in_additional=0.5, p_case_twin_fields=0.2, p_deep_path_var=0.2,
+    p_second_file=0.6, p_stdlib_file_name=0.5, stdlib_file_names=["logging"])
 
 BUDGET = {
     "quick": {"worlds": 150, "runs": 80, "wall_cap": 300, "world_wall": 90},
